@@ -16,7 +16,7 @@ impl Check for C06 {
         "C06"
     }
     fn ncases(&self, tier: Tier) -> u64 {
-        tier.sz(3000, 60000)
+        tier.sz(3000, 30000)
     }
     fn rule(&self) -> &'static str {
         "per case one generated grammar with <= 6 tokens, a token-cost table, a random %avoid_insert set and 5 inputs (<= 14 lexemes) with 1-3 errors; for every reported error whose configuration the replay model reaches: all sequences have equal cost; an exhaustive reference search over explicit Insert/Delete/Shift sequences (no Insert after Delete, never insert end-of-input, success = 3 trailing shifts or acceptance) finds no cheaper repair and exactly the reported set among minimum-cost repairs with best reach (as sets); no trailing shift, no duplicate, %avoid_insert sequences last, shorter first within a group, no inserted end-of-input. Non-trivial = error whose repair set has >= 2 sequences; distinct by (grammar, input, costs, error index)."
@@ -28,7 +28,7 @@ impl Check for C06 {
         ]
     }
     fn floor(&self, tier: Tier) -> u64 {
-        tier.sz(1500, 30000)
+        tier.sz(1500, 10000)
     }
     fn required_counters(&self, _t: Tier) -> Vec<&'static str> {
         vec!["errors_compared", "sets_of_size_1", "sets_of_size_2_5", "sets_of_size_6_plus", "avoid_insert_reordered", "ranking_removed_candidates", "large_cost_tables", "long_inputs", "errors_compared_with_ranking_window_inside_input"]
